@@ -1,5 +1,5 @@
-import G3D.Proofs.KernelsTie
-import G3D.Proofs.KernelsTieReal
+import G3D.Proofs.KTieKmember
+import G3D.Proofs.KTieKmemberr
 import G3D.Props.C05
 #print axioms G3D.Props.C05.point_in_line
 #print axioms G3D.Props.C05.point_in_plane
@@ -23,12 +23,12 @@ import G3D.Props.C05
 #print axioms G3D.Props.C05.polyhedron_judge_sound
 #print axioms G3D.Props.C05.segment_in_polyhedron
 #print axioms G3D.Props.C05.polygon_in_polyhedron
-#print axioms G3D.KernelsTie.planeContains_iff
-#print axioms G3D.KernelsTie.planeContains_shape
-#print axioms G3D.KernelsTie.planeContainsLine_iff
-#print axioms G3D.KernelsTie.halfLineContains_iff
-#print axioms G3D.KernelsTie.halfLineContains_shape
-#print axioms G3D.KernelsTieReal.lineContains_cast
-#print axioms G3D.KernelsTieReal.segContains_iff
-#print axioms G3D.KernelsTieReal.segContains_paths
-#print axioms G3D.KernelsTieReal.planeContainsN_cast
+#print axioms G3D.KTie.Kmember.planeContains_iff
+#print axioms G3D.KTie.Kmember.planeContains_shape
+#print axioms G3D.KTie.Kmember.planeContainsLine_iff
+#print axioms G3D.KTie.Kmember.halfLineContains_iff
+#print axioms G3D.KTie.Kmember.halfLineContains_paths
+#print axioms G3D.KTie.Kmember.lineContains_cast
+#print axioms G3D.KTie.Kmember.segContains_iff
+#print axioms G3D.KTie.Kmember.segContains_paths_main
+#print axioms G3D.KTie.Kmember.planeContainsN_cast
